@@ -29,6 +29,11 @@ Line-protocol front end of the C05 model (requests after the leading `C05` field
                                                           `prefix` = the loop before its repair (preFixFindMount, finding C05-findmount-target-length, fixed)
   hashKey <item>                                       → <type> <IntValue> <StrValue hex> <float position> <is NaN>: HashKey() of the value (HV.key)
   listing <perm> <item,…>                              → positions (in the request) of the members in the order the set lists them (setListing on values)
+  mergeTables <impl|ranged> <table perm> <perm/perm/…> <name=id,…;name=id,…;…> <name,…> → per name: the id it is bound to after DefaultGlobals' merge of the
+                                                          tables (in slice order; inside table i the entries visited in order perm i), or -; `ranged` = the
+                                                          forbidden variant (the tables visited in order <table perm>); then the answer of the Spec lastDefining
+  pickExt <impl|raced> <arrival perm> <ext hex,…> <0|1,…> → some <ext hex> | none: the file readFileWithExtensions reads (1 = the file with that extension exists);
+                                                          `raced` = the forbidden variant (first answer to arrive wins)
   item := i:<int> | s:<hex> | t | f | n | d:<position of the float among the non-NaN floats> | D (NaN) | b:<byte> | y:<hex bytes>
 
 Program tokens (prefix notation, separated by single spaces):
@@ -390,6 +395,26 @@ def handle : List String → String
       match cache n with
       | some m => toString m.2
       | none => "-"))
+  | ["mergeTables", mode, tperm, perms, tabs, names] =>
+    let ps := (perms.splitOn "/").map parsePerm
+    let ts := (if tabs = "-" then [] else tabs.splitOn ";").map fun (t : String) =>
+      (if t = "-" then [] else t.splitOn ",").map fun (s : String) =>
+        match s.splitOn "=" with
+        | [k, v] => (k, v)
+        | k :: _ => (k, "")
+        | [] => ("", "")
+    let vis := (List.range ts.length).map fun i => applyPerm (ps.getD i []) (ts.getD i [])
+    let m := if mode = "ranged" then mergeTablesRanged (parsePerm tperm) vis AMap.empty else mergeTables vis AMap.empty
+    let ns := if names = "-" then [] else names.splitOn ","
+    orDash (",".intercalate (ns.map fun n => (m n).getD "-")) ++ "\t" ++
+      orDash (",".intercalate (ns.map fun n => (lastDefining ts AMap.empty n).getD "-"))
+  | ["pickExt", mode, arrival, exts, bits] =>
+    let es := if exts = "-" then [] else exts.splitOn ","
+    let bs := if bits = "-" then [] else bits.splitOn ","
+    let present (e : String) : Bool := bs.getD (es.findIdx (· == e)) "0" == "1"
+    match (if mode = "raced" then pickExtensionRaced (parsePerm arrival) es present else pickExtension es present) with
+    | some e => "some " ++ e
+    | none => "none"
   | _ => "error\tunknown-request"
 
 end Risor.C05
